@@ -1,0 +1,14 @@
+//go:build verif
+
+package store
+
+// VerifRegisterStore registers an already constructed store under a url so that
+// NewStore(url) returns it (verification builds only).
+func VerifRegisterStore(storeURL string, s Store) {
+	stores.Store(storeURL, s)
+}
+
+// VerifUnregisterStore removes a store registered with VerifRegisterStore.
+func VerifUnregisterStore(storeURL string) {
+	stores.Delete(storeURL)
+}
